@@ -112,5 +112,14 @@ termination_by i j => (i, j)
 
 def lev (eq : UInt8 → UInt8 → Bool) (a b : Bytes) : Nat := levD eq a b a.length b.length
 
+/-- the textbook *head* recursion: compare the first characters, recurse on the tails -/
+def levFront (eq : UInt8 → UInt8 → Bool) : Bytes → Bytes → Nat
+  | [], b => b.length
+  | a, [] => a.length
+  | x :: a, y :: b =>
+    min (min (levFront eq a (y :: b) + 1) (levFront eq (x :: a) b + 1))
+      (levFront eq a b + (if eq x y then 0 else 1))
+termination_by a b => a.length + b.length
+
 end Spec
 end TlxVerif.C19
